@@ -419,6 +419,8 @@ class SimStep:
                 writer.close()
             if action.get("die"):
                 raise StepAbort(9, "died after sending a request")
+        elif a == "sleep":
+            await asyncio.sleep(float(action.get("s", 0.01)))
         elif a == "signal":
             b.signals.setdefault(action["key"], asyncio.Event()).set()
         elif a == "await":
